@@ -1517,24 +1517,21 @@ def _encode_host(host: str, validate_host: bool) -> str:
             return f"{host}%{zone}" if sep else host
 
     # IDNA encoding is slow, skip it for ASCII-only strings
-    if host.isascii():
-        # Check for invalid characters explicitly; _idna_encode() does this
-        # for non-ascii host names.
-        host = host.lower()
-        if validate_host and (invalid := NOT_REG_NAME.search(host)):
-            value, pos, extra = invalid.group(), invalid.start(), ""
-            if value == "@" or (value == ":" and "@" in host[pos:]):
-                # this looks like an authority string
-                extra = (
-                    ", if the value includes a username or password, "
-                    "use 'authority' instead of 'host'"
-                )
-            raise ValueError(
-                f"Host {host!r} cannot contain {value!r} (at position {pos}){extra}"
-            ) from None
-        return host
-
-    return _idna_encode(host)
+    host = host.lower() if host.isascii() else _idna_encode(host)
+    # Check for invalid characters explicitly; IDNA encoding does not reject
+    # them and its mapping step may even produce them from non-ascii characters.
+    if validate_host and (invalid := NOT_REG_NAME.search(host)):
+        value, pos, extra = invalid.group(), invalid.start(), ""
+        if value == "@" or (value == ":" and "@" in host[pos:]):
+            # this looks like an authority string
+            extra = (
+                ", if the value includes a username or password, "
+                "use 'authority' instead of 'host'"
+            )
+        raise ValueError(
+            f"Host {host!r} cannot contain {value!r} (at position {pos}){extra}"
+        ) from None
+    return host
 
 
 @rewrite_module
